@@ -449,6 +449,28 @@ func init() {
 					}
 					return
 				}
+				// a value handed back by an unexported helper of the module: whatever the helper can return there
+				{
+					var hc *ssa.Call
+					ri := 0
+					switch x := v.(type) {
+					case *ssa.Extract:
+						hc, _ = x.Tuple.(*ssa.Call)
+						ri = x.Index
+					case *ssa.Call:
+						hc = x
+					}
+					if hc != nil {
+						if h := hc.Common().StaticCallee(); h != nil && h.Blocks != nil && h.Pkg == f.Pkg && h.Parent() == nil && h.Object() != nil && !h.Object().Exported() {
+							for _, r := range returnsOf(h) {
+								if ri < len(r.Results) {
+									walk(r.Results[ri], instrPos(r), depth+1)
+								}
+							}
+							return
+						}
+					}
+				}
 				n++
 				if k, ok := constInt(v); ok {
 					c.check(k == 0 || k == -1, R, fname(f), fmt.Sprintf("constant result %d", k), at, "0 = success, -1 = no status", fmt.Sprintf("the status conversion returns the constant %d", k))
